@@ -56,6 +56,9 @@ def rule_label(ctx):
            "with_timeout no longer bounds the call by the named timeout attribute of the instance (or retries / swallows the timeout)", construct="with_timeout:timeout source")
 
 
+RAW_COROUTINES = {"read", "readline", "readexactly", "readuntil", "drain", "wait_closed", "start_tls"}
+
+
 def rule_raw(ctx):
     p = ctx.p
     ctx.rule("C16.RAW", "the stream wrappers touch the raw reader / writer only under a timeout: in StreamIO and its subclasses every awaited call on `self.reader` / `self.writer` "
@@ -64,17 +67,17 @@ def rule_raw(ctx):
     n = 0
     for cn in sorted(classes):
         for name, fn in p.methods(cn).items():
-            for fx in [fn] + p.nested_functions(fn):
-                for a in walk_no_nested(fx):
-                    if isinstance(a, ast.Await) and isinstance(a.value, ast.Call) and isinstance(a.value.func, ast.Attribute):
-                        recv = expand(p, a.value.func.value, fx)
-                        if src(recv) in ("self.reader", "self.writer"):
-                            n += 1
-                            bounded = any(d.name == "with_timeout" for d in p.decorators(fn))
-                            ctx.ob("C16.RAW", a, f"{cn}.{name}: `{src(a)[:50]}` runs under with_timeout", bounded,
-                                   f"{cn}.{name} awaits `{src(a.value)[:50]}` on the raw stream outside any with_timeout method: a peer that stops "
-                                   "reading / sending holds this call (and the session's resources) without limit", construct=f"raw:{cn}.{name}:{a.value.func.attr}")
-    ctx.floor("C16.RAW", 4, "awaited raw stream calls")
+            for a in ast.walk(fn):        # nested functions and lambdas included: `lambda: self.reader.read(n)`, `read = self.reader.read`
+                if isinstance(a, ast.Attribute) and isinstance(a.ctx, ast.Load) and a.attr in RAW_COROUTINES:
+                    fx = p.enclosing_function(a) or fn
+                    recv = expand(p, a.value, fx)
+                    if src(recv) in ("self.reader", "self.writer"):
+                        n += 1
+                        bounded = any(d.name == "with_timeout" for d in p.decorators(fn))
+                        ctx.ob("C16.RAW", a, f"{cn}.{name}: `{src(a)}` is used under with_timeout", bounded,
+                               f"{cn}.{name} uses `{src(a)}` of the raw stream outside any with_timeout method: a peer that stops "
+                               "reading / sending holds this call (and the session's resources) without limit", construct=f"raw:{cn}.{name}:{a.attr}")
+    ctx.floor("C16.RAW", 4, "uses of raw stream coroutines")
 
 
 def _anc(p, n, stop=None):
